@@ -530,6 +530,7 @@ Proof.
   destruct (method_of m) as [meth| |]; try reflexivity.
   destruct (_ && _)%bool; [reflexivity|].
   destruct (dialog_of m) as [d| |]; try reflexivity.
+  cbv zeta. destruct (_ && _)%bool; [reflexivity|].
   destruct (get_raw _ m); cbn [fst]; try reflexivity; destruct (notify_terminated meth m); reflexivity.
 Qed.
 Lemma stb_pure_tb e t0 p m : ps_table (fst (stb_pure e t0 p m)) = ps_table p.
@@ -1399,7 +1400,7 @@ Definition b2_hist : hist :=
     (sec 7, s2b "z9hG4bKpx6", EvUdp 0 (s2b "10.0.0.11") 5070 (x_resp "200 OK" "z9hG4bKpx2" "z9hG4bKa" "call-a" "")) ].
 Definition legacy_key_fixes : fixes :=
   {| fx_wiring := true; fx_udp_via_listener := true; fx_indialog_invite := true; fx_bracket_host := true;
-     fx_resolved_key := false |}.
+     fx_resolved_key := false; fx_stale_pin := true |}.
 Theorem C12_legacy_refuted :
   (* before the repair (fx_resolved_key = false) *)
   dests (run legacy_key_fixes b2_cfg (init_state b2_cfg 0 []) b2_hist) = [ []; [DUdp (s2b "10.0.0.11") 5070]; [] ] /\
